@@ -51,6 +51,10 @@ type Finding struct {
 	Case Case   `json:"case"`
 	Key  string `json:"key"`
 	Msg  string `json:"msg"`
+	// History holds the cases the same process executed just before this one; it is only
+	// replayed when the finding does not reproduce on its own (history-dependent behaviour).
+	History     []Case `json:"history,omitempty"`
+	NeedHistory bool   `json:"needs_history,omitempty"`
 }
 
 const maxKeep = 40 // violations kept (written as replays) per shard and per run
@@ -136,6 +140,22 @@ type Ctx struct {
 	// watchdog
 	curStart atomic.Int64 // unix nanos of the running case, 0 = idle
 	cur      atomic.Pointer[Case]
+	// the last few executed cases (history for findings that depend on earlier calls)
+	recent []Case
+}
+
+const historyLen = 8
+
+// Remember appends cs to the short execution history of this process.
+func (c *Ctx) Remember(cs *Case) {
+	if len(cs.S) > 4096 {
+		return // very large inputs are not worth carrying around
+	}
+	if len(c.recent) == historyLen {
+		copy(c.recent, c.recent[1:])
+		c.recent = c.recent[:historyLen-1]
+	}
+	c.recent = append(c.recent, *cs)
 }
 
 func (c *Ctx) Thorough() bool { return c.Tier == "thorough" }
@@ -184,7 +204,11 @@ func (c *Ctx) Fail(prop string, cs *Case, f string, a ...any) {
 	if cc.S != nil {
 		cc.Q = strconv.Quote(string(cc.S))
 	}
-	c.R.Add(Finding{Prop: prop, Case: cc, Key: cc.Key(), Msg: fmt.Sprintf(f, a...)})
+	f2 := Finding{Prop: prop, Case: cc, Key: cc.Key(), Msg: fmt.Sprintf(f, a...)}
+	if len(c.R.Findings) < maxKeep {
+		f2.History = append([]Case(nil), c.recent...)
+	}
+	c.R.Add(f2)
 }
 
 // SortedKeys returns the keys of m in order.
